@@ -890,6 +890,13 @@ def tags(case, impl, model):
         t.append("hyp.dom=" + str(out["hyp"]["dom"]))
         if "region" in out["hyp"]:
             t.append("hyp.region=" + str(out["hyp"]["region"]))
+            h = out["hyp"]
+            if h.get("domE") and class_depth(case["cls"]) >= 2:
+                t.append("nested,in-domain: " + ("Sync holds" if h.get("rtNoKu") else "Sync fails") + ", "
+                         + ("inside region" if h["region"] else "outside region"))
+                if not h["region"]:
+                    t.append(("Sync holds" if h.get("rtNoKu") else "Sync fails") + " outside region because: "
+                             + h.get("regionWhy", "?"))
             if class_depth(case["cls"]) >= 2:
                 t.append(f"nested-class-tree:region={out['hyp']['region']}")
             if class_depth(case["cls"]) >= 3:
